@@ -789,7 +789,6 @@ func c11Files(p *Prog, r *Report) {
 	}
 }
 
-
 // bodyWritesField: the loop body (or a function it calls) writes the field.
 func bodyWritesField(p *Prog, fi *FuncInfo, body ast.Node, ref FieldRef) bool {
 	info := fi.Pkg.TypesInfo
